@@ -34,7 +34,7 @@ theorem mainStep_enabled (k : Nat) (w : Wk τ) (ha : w.alive = true) (hp : w.pha
     ∃ p, (mainStep k w p).isSome = true := by
   cases hph : w.phase with
   | boot => exact ⟨.none, by simp [mainStep, ha, hph]⟩
-  | collect => exact ⟨.collect [] false, by simp [mainStep, ha, hph]⟩
+  | collect => exact ⟨.collect [] false false none, by simp [mainStep, ha, hph]⟩
   | finish => exact ⟨.none, by simp [mainStep, ha, hph]⟩
   | done => exact absurd hph hp
   | loop =>
